@@ -107,9 +107,10 @@ func (m *shadowMC) Unlock(b []byte) error {
 	if !ok {
 		return errInjected
 	}
-	if r := m.reg(b); r != nil {
-		r.locked = false
+	if r := m.reg(b); r == nil || !r.mapped {
+		return errors.New("ENOMEM: region is not mapped")
 	}
+	m.reg(b).locked = false
 	return nil
 }
 
@@ -119,9 +120,11 @@ func (m *shadowMC) Free(b []byte) error {
 	if !ok {
 		return errInjected
 	}
-	if r := m.reg(b); r != nil {
-		r.mapped, r.locked, r.prot = false, false, 0
+	if r := m.reg(b); r == nil || !r.mapped {
+		return errors.New("EINVAL: region is not mapped")
 	}
+	r := m.reg(b)
+	r.mapped, r.locked, r.prot = false, false, 0
 	return nil
 }
 
@@ -141,9 +144,10 @@ func (m *shadowMC) Protect(b []byte, f mcall.MemoryProtectionFlag) error {
 	if !ok {
 		return errInjected
 	}
-	if r := m.reg(b); r != nil {
-		r.prot = protCode(f)
+	if r := m.reg(b); r == nil || !r.mapped {
+		return errors.New("ENOMEM: region is not mapped")
 	}
+	m.reg(b).prot = protCode(f)
 	return nil
 }
 
@@ -279,6 +283,9 @@ func runMemCase(c *memCase) {
 				}
 				if err := sec.Close(); err != nil {
 					ob.R = 1
+					if len(op.Plan) == 0 && c.Impl == "protectedmemory" {
+						viol("op %d: Close without any injected fault failed (a failed Close cannot be retried): %v", i, err)
+					}
 				} else if !wasClosed(c, i) {
 					closedOK++
 				}
